@@ -181,6 +181,9 @@ type Gate struct {
 	Skip    []Check         // edges allowed to bypass the check inside a ForEach loop body (their pass edge = allowed skip)
 	// MinEffects: minimal number of effect sites (default 1)
 	MinEffects int
+	// LoopOnly (with ForEach): only require that the next iteration of the loop is reachable through a pass edge (or a
+	// Skip edge); no effect is examined. Used for "the loop stops at the first failure".
+	LoopOnly bool
 	// Start: analyse reachability from the block of the first instruction matching this callee rather than entry
 	Note string
 }
@@ -660,8 +663,14 @@ func (p *Prog) RunGate(g *Gate) GateResult {
 		removed[e] = true
 	}
 	run.assumeEdges(removed)
-	effects := g.Effect.Sites(run)
+	var effects []effSite
+	if !g.LoopOnly {
+		effects = g.Effect.Sites(run)
+	}
 	res.EffectSites = len(effects) + run.tails
+	if g.LoopOnly {
+		res.EffectSites = 1
+	}
 	if len(g.Fn.Blocks) == 0 {
 		return res
 	}
@@ -760,6 +769,9 @@ func (r *Report) Gate(g Gate) {
 	rule := fmt.Sprintf("GATE: %s only via [%s]", g.Effect.Desc, g.Check.Desc)
 	if g.ForEach {
 		rule += " for each element"
+	}
+	if g.LoopOnly {
+		rule = fmt.Sprintf("GATE: the next loop iteration is reachable only via [%s]", g.Check.Desc)
 	}
 	if g.Fn == nil {
 		r.Lost(key, rule, "anchored function not found in the program")
